@@ -1,6 +1,6 @@
 # Engine E1: mapper tables. generate layouts -> tabulate the real Mapper (tmv tabulate) -> TLC
 # model-checks MapperImplMC (property clauses + conformance with Mapper.tla) over every shard.
-import json, os, time
+import shutil, json, os, time
 from common import *
 import families as F
 
@@ -78,9 +78,10 @@ def fancy_ref_jobs(pred, n):
     cpath = os.path.join(cdir, "fancygen-size1-%s.ndjson" % h.hexdigest()[:12])
     if not os.path.exists(cpath):
         import e3
-        wd = workdir("fancygen-cache")
+        wd = workdir("fancygen-cache-%d" % os.getpid())       # (two checks may start at the same time)
         p, _ = e3.generate(wd, "FancyGen", {"Size": 1}, timeout=1800, mem="8g")
         os.replace(p, cpath)
+        shutil.rmtree(wd, ignore_errors=True)
     # spread the sample over the kinds of source programs (which item types, which repeat modes, absorbing or not), not over their number
     def sig(src, lay):
         items = src.get("mappings", [])
